@@ -48,19 +48,23 @@ func c12New(n int) *c12World {
 	return w
 }
 
-// delay returns a symbolic delay of exactly `steps` whole intervals plus an arbitrary remainder.
-func c12Delay(name string, steps int) time.Duration {
-	rem := rt.Int(name+".rem", 0, c12Interval-1)
-	return time.Duration(int64(steps)*c12Interval + rem)
+// c12Delay draws a fully symbolic delay of 1..maxSteps whole intervals plus an arbitrary remainder;
+// the number of whole intervals stays symbolic (the wheel's own index/circle arithmetic decides
+// where the execution forks).
+func c12Delay(name string, maxSteps int) (time.Duration, int) {
+	d := rt.Int(name, c12Interval, int64(maxSteps)*c12Interval+c12Interval-1)
+	return time.Duration(d), int(d / c12Interval)
 }
 
-func (w *c12World) set(key string, value int64, steps int, name string) {
-	w.tw.setTask(&timingEntry{baseEntry: baseEntry{delay: c12Delay(name, steps), key: key}, value: value})
+func (w *c12World) set(key string, value int64, maxSteps int, name string) {
+	d, steps := c12Delay(name, maxSteps)
+	w.tw.setTask(&timingEntry{baseEntry: baseEntry{delay: d, key: key}, value: value})
 	w.due[key], w.val[key], w.active[key] = w.tick+steps, value, true
 }
 
-func (w *c12World) move(key string, steps int, name string) {
-	w.tw.moveTask(baseEntry{delay: c12Delay(name, steps), key: key})
+func (w *c12World) move(key string, maxSteps int, name string) {
+	d, steps := c12Delay(name, maxSteps)
+	w.tw.moveTask(baseEntry{delay: d, key: key})
 	if w.active[key] {
 		w.due[key] = w.tick + steps
 	}
@@ -86,8 +90,7 @@ func (w *c12World) doTick(keys []string) {
 				got = f.value
 			}
 		}
-		want := w.active[k] && w.due[k] == w.tick
-		if want {
+		if w.active[k] && w.due[k] == w.tick {
 			rt.Cover("fired")
 			rt.Assert(cnt == 1, "a timer due at this tick fires exactly once at this tick")
 			rt.Assert(cnt != 1 || got == w.val[k], "a firing timer carries the most recently set value")
@@ -98,36 +101,135 @@ func (w *c12World) doTick(keys []string) {
 	}
 }
 
-//verif:entry tier=quick,thorough gosync steps=400000 cover=fired,moved
-//verif:doc slots n<=3 (quick) / n<=4 (thorough); pre-ticks < 2n; set and move delays of 1..2n+1 (quick) / 1..3n (thorough) whole intervals plus an arbitrary sub-interval remainder; 0..s1-1 ticks between set and move; one key.
+func (w *c12World) finish(keys []string, ticks int) {
+	for i := 0; i < ticks; i++ {
+		w.doTick(keys)
+	}
+	for _, k := range keys {
+		rt.Assert(!w.active[k], "every pending timer has fired by its due tick")
+	}
+}
+
+//verif:entry tier=quick,thorough gosync steps=2000000 cover=fired,moved
+//verif:doc SetMove: slots n<=3 (quick) / n<=5 (thorough); pre-ticks < 2n (every tickedPos, wrapped or not); set and move delays symbolic in [1, 3n] intervals (+ arbitrary remainder); 0..3n-1 ticks between set and move; one key.
 func Verif_C12_SetMove() {
 	maxN := 3
 	if rt.Tier() > 0 {
-		maxN = 4
+		maxN = 5
 	}
 	n := rt.Choose("slots", maxN) + 1
-	maxSteps := 2*n + 1
-	if rt.Tier() > 0 {
-		maxSteps = 3 * n
-	}
+	maxSteps := 3 * n
 	w := c12New(n)
 	keys := []string{"a"}
 	pre := rt.Choose("preticks", 2*n)
 	for i := 0; i < pre; i++ {
 		w.doTick(keys)
 	}
-	s1 := rt.Choose("s1", maxSteps) + 1
-	s2 := rt.Choose("s2", maxSteps) + 1
-	between := rt.Choose("between", s1)
-	v1 := rt.Int64("v1")
-	w.set("a", v1, s1, "d1")
+	w.set("a", rt.Int64("v1"), maxSteps, "d1")
+	between := rt.Choose("between", maxSteps)
 	for i := 0; i < between; i++ {
 		w.doTick(keys)
 	}
-	w.move("a", s2, "d2")
+	w.move("a", maxSteps, "d2")
 	rt.Cover("moved")
-	for i := 0; i < s2+n+1; i++ {
+	w.finish(keys, maxSteps+1)
+}
+
+func (w *c12World) script(keys []string, k, maxSteps int, tickChoices []int) {
+	for op := 0; op < k; op++ {
+		key := keys[rt.Choose("key", len(keys))]
+		switch rt.Choose("op", 3) {
+		case 0:
+			if w.active[key] {
+				rt.Cover("reset")
+			}
+			w.set(key, rt.Int64("v"), maxSteps, "d")
+		case 1:
+			w.move(key, maxSteps, "d")
+			rt.Cover("moved")
+		case 2:
+			w.remove(key)
+			rt.Cover("removed")
+		}
+		t := tickChoices[rt.Choose("ticks", len(tickChoices))]
+		for i := 0; i < t; i++ {
+			w.doTick(keys)
+		}
+	}
+	w.finish(keys, maxSteps+1)
+}
+
+//verif:entry tier=quick gosync steps=4000000 cover=fired,removed,reset,moved
+//verif:doc Script (quick): slots n = 2; pre-ticks < n; 3 operations, each symbolically one of set / move / remove on key a followed by 0, 1 or n ticks; delays symbolic in [1, 2n+1] intervals (+ remainder); then 2n+2 closing ticks. Every tick is checked against the ghost.
+func Verif_C12_Script() {
+	n := 2
+	w := c12New(n)
+	keys := []string{"a"}
+	pre := rt.Choose("preticks", n)
+	for i := 0; i < pre; i++ {
 		w.doTick(keys)
 	}
-	rt.Assert(!w.active["a"], "the moved timer has fired by its due tick")
+	w.script(keys, 3, 2*n+1, []int{0, 1, n})
+}
+
+//verif:entry tier=thorough gosync steps=4000000 cover=fired,removed,reset,moved
+//verif:doc Script (thorough): slots n in {2,3}; pre-ticks < n; 4 operations on key a, each followed by 0..n+1 ticks; delays in [1, 2n+1] intervals.
+func Verif_C12_Script4() {
+	n := 2 + rt.Choose("slots", 2)
+	w := c12New(n)
+	keys := []string{"a"}
+	pre := rt.Choose("preticks", n)
+	for i := 0; i < pre; i++ {
+		w.doTick(keys)
+	}
+	ticks := []int{}
+	for i := 0; i <= n+1; i++ {
+		ticks = append(ticks, i)
+	}
+	w.script(keys, 4, 2*n+1, ticks)
+}
+
+//verif:entry tier=thorough gosync steps=4000000 cover=fired,removed,reset,moved
+//verif:doc Script2Keys (thorough): slots n in {2,3}; 3 operations over keys {a,b} (interference between keys sharing a slot), each followed by 0, 1 or n ticks.
+func Verif_C12_Script2Keys() {
+	n := 2 + rt.Choose("slots", 2)
+	w := c12New(n)
+	keys := []string{"a", "b"}
+	w.script(keys, 3, 2*n+1, []int{0, 1, n})
+}
+
+//verif:entry tier=quick,thorough gosync steps=4000000 cover=fired,leftover
+//verif:doc Reuse: a key is re-registered while its superseded entry is still linked in a slot: set; t1 ticks; (remove | move); set again; t2 ticks; (remove | move); closing ticks. slots n=2 (quick) / 2..4 (thorough), t1,t2 in {0,1,n}, delays in [1, 2n+1] intervals.
+func Verif_C12_Reuse() {
+	n := 2
+	if rt.Tier() > 0 {
+		n = 2 + rt.Choose("slots", 3)
+	}
+	maxSteps := 2*n + 1
+	w := c12New(n)
+	keys := []string{"a"}
+	pre := rt.Choose("preticks", n)
+	for i := 0; i < pre; i++ {
+		w.doTick(keys)
+	}
+	tc := []int{0, 1, n}
+	second := func() {
+		if rt.Bool("remove") {
+			w.remove("a")
+		} else {
+			w.move("a", maxSteps, "dm")
+		}
+	}
+	w.set("a", rt.Int64("v1"), maxSteps, "d1")
+	for i, t := 0, tc[rt.Choose("t1", 3)]; i < t; i++ {
+		w.doTick(keys)
+	}
+	second()
+	w.set("a", rt.Int64("v2"), maxSteps, "d2")
+	rt.Cover("leftover")
+	for i, t := 0, tc[rt.Choose("t2", 3)]; i < t; i++ {
+		w.doTick(keys)
+	}
+	second()
+	w.finish(keys, maxSteps+1)
 }
